@@ -283,6 +283,44 @@ func checkC16(tier string) int {
 		}
 		nontrivial++
 	}
+	// state carried from a reply into later requests: GetStatus (reply of length L) then every
+	// setter on the SAME client, both wait modes: the request is still a full-size audit_status
+	for _, L := range []int{32, 33, 36, 40, 43, 44, 48, 64} {
+		for _, st := range setters() {
+			for _, wm := range []libaudit.WaitMode{libaudit.WaitForReply, libaudit.NoWait} {
+				raw := make([]byte, L)
+				for i := range raw {
+					raw[i] = byte(0x21 + i)
+				}
+				sim := ksim.New(nil)
+				sim.NoDeviations = true
+				sim.StatusRaw = raw
+				c := &libaudit.AuditClient{Netlink: sim}
+				if _, err := c.GetStatus(); err != nil {
+					rep("getstatus-reply-rejected", "GetStatus rejected a %d-byte reply: %v", L, err)
+					continue
+				}
+				before := len(sim.Sends)
+				v := uint32(0x5A5A5A5A)
+				err := st.call(c, v, wm)
+				evals++
+				if err != nil || len(sim.Sends) != before+1 {
+					rep("setter-after-getstatus:"+st.name, "%s after a GetStatus with a %d-byte reply: err=%v, %d requests", st.name, L, err, len(sim.Sends)-before)
+					continue
+				}
+				s := sim.Sends[before]
+				want := make([]byte, sizeofStatus)
+				binary.LittleEndian.PutUint32(want[offMask:], st.mask)
+				wv := st.val(v)
+				binary.LittleEndian.PutUint32(want[st.off:], wv)
+				if s.Type != uapiAuditSet || string(s.Data) != string(want) {
+					rep("setter-after-getstatus:"+st.name, "%s after a GetStatus whose reply had %d bytes: %d-byte payload % x, want the full %d-byte audit_status % x", st.name, L, len(s.Data), s.Data, sizeofStatus, want)
+					continue
+				}
+				nontrivial++
+			}
+		}
+	}
 	// GetStatusAsync flags
 	for _, ack := range []bool{true, false} {
 		sim := ksim.New(nil)
